@@ -34,6 +34,11 @@ CHECKS.update({
    text="Token-level mutations of a valid project, random syntactic documents, token soup, arbitrary Unicode (BOM, NUL, invalid escapes), config mutations, nesting to depth 40 and spliced documents are pushed through both parsers, parse_config, extension and import resolution, both checkers and (after an accepted check) every printer and print_positioned_error, each call inside catch_unwind with the panic site recorded; a sample goes through the real CLI (crash = 'panicked at' on stderr, signal, or exit status outside {0,1}) and the loader ABI is driven in separate engine processes whose death is diagnosed by trace replay.",
    note="non-termination is observed through the shard watchdog (inconclusive unless it reproduces in isolation); release profile as shipped", ref="DESIGN.md §5 C08"),
 })
+CHECKS.update({
+ "C16": dict(cat="exploration", tech="runtime monitor: real printer output evaluated (JS template literal) and re-parsed by the reference parser, compared with the reference merge of the schema / the parsed document",
+   text="(a) random parseable documents of both grammars are parsed and printed by the real code (plain writer and JS template writer) and the printed text, read back by an independent parser with spec string semantics, must denote the same document; the template literal is evaluated (cooked value, unescaped ${ is an error) and must equal the plain printing. (b) valid schemas with hostile descriptions and default strings, split over files and extensions, go through the library route and (sampled) the real CLI's serverGraphqlOutput module; every definition of strip_nitrogql(merge(M)) must be present with identical content and only built-ins may be added.",
+   note="trusts refparse.rs and the template evaluator in jsread.rs; string findings are keyed by the class of the source string (block / quoted multi-line / quoted single-line)", ref="DESIGN.md §5 C16"),
+})
 NOT_YET = {}
 
 def main():
